@@ -8,10 +8,10 @@ let () =
     let (case, rest) = split_case line in
     match split_bar rest with
     | tables :: init :: tl ->
-      let _ = parse_tables tables in
+      let (b, _) = parse_tables tables in
       let st0 = parse_state init in
-      let ops = (match tl with [] -> [] | o :: _ -> L.map parse_op (split_on ';' o)) in
-      let res = Manip.mrun st0 ops in
+      let ops = (match tl with [] -> [] | o :: _ -> L.map (parse_hop b) (split_on ';' o)) in
+      let res = Hist.hrun st0 ops in
       let prev = ref st0 in
       let items = L.map (fun (o, st) -> let s = show_out !prev st o ^ "/" ^ show_state st in prev := st; s) res in
       print_endline (case ^ " " ^ String.concat ";" items)
